@@ -63,6 +63,12 @@ def run_poly(bus, ex, rng, D, N, C, L, band):
     S = tp.scale()
     bus.judge("interp_anywhere", float(np.max(np.abs(vals - ref))) / S, 256 * EPS * N ** D * 5, (D, C, N % 2, band), sample=dict(D=D, N=N, C=C, L=L, poly=tp.describe(), x=xq[0].tolist()),
               witness=dict(D=D, N=N, C=C, L=L, poly=tp.describe()), nontrivial=tp.kmax() > 0)
+    if D >= 2:
+        # the documented indexing option: the same function sampled on the "xy" grid (first two array axes exchanged) must interpolate to the same values
+        u_xy = np.swapaxes(u, 1, 2)
+        fi_xy = ex.FourierInterpolator(jnp.asarray(u_xy), domain_extent=L, indexing="xy")
+        vals_xy = np.asarray(jax.vmap(fi_xy)(jnp.asarray(xq)))
+        bus.judge("interp_anywhere", float(np.max(np.abs(vals_xy - ref))) / S, 256 * EPS * N ** D * 5, (D, C, N % 2, band, "xy"), witness=dict(D=D, N=N, C=C, L=L, indexing="xy", poly=tp.describe()), nontrivial=tp.kmax() > 0)
     # ---- resolution changes
     Kp = max(max(abs(x) for x in k) for ch in tp.terms for k, _, _ in ch)
     Ms = sorted({N - 3, N - 2, N - 1, N + 1, N + 2, N + 3, 2 * N, 2 * N + 1, N // 2 + 1, 3 * N // 2} - {N})
